@@ -11,18 +11,16 @@ which is how garbler/evaluator/computer read an input.  `StrFacts` is what the
 code reads off an input string (`num` = outcome of `big.Int.SetString(s,0)`,
 given).  `GoVal` is a dynamic Go value handed to `Set`/`Sizes`.
 
-Status against /repo HEAD.  Two defects found by this check are repaired by
-commits 66e4e03 (`mpc.Result` no longer rewrites its argument) and 485d3fb
-(`bitLen` loop bound `i > 0`); the model follows the repaired code, the
-purity and `bitLen` theorems are now full-strength, and what was wrong is
-stated about explicitly named OLD definitions (`resultIntOld`, `bitLenOld`).
+Status against /repo HEAD.  Four defects found by this check are repaired by
+commits 66e4e03 (`mpc.Result` no longer rewrites its argument), 485d3fb
+(`bitLen` loop bound `i > 0`), 95af76e (`setInt` writes exactly `t.Bits` bits,
+sign-extended above bit 63) and 74f1961 (`Result` decodes arrays of arrays /
+slices / structs).  The model follows the repaired code and the corresponding
+theorems are full-strength; what was wrong is stated about explicitly named
+OLD definitions (`resultIntOld`, `bitLenOld`, `setIntOld`).
 Still violated (a `…_witness` negation next to the `…_partial` theorem):
-  (b') for negative values `Sizes` = 64 while `InputSizes` = bit length of
-      |v|, which is too short for the two's complement form;
-  (c) `setInt` writes 64 bits whatever the width: no sign extension above bit
-      64, and the surplus bits of a negative value stay in the wires of a
-      following array that is given no elements;
-  (d) `mpc.Result` panics on arrays whose elements are arrays/slices/structs.
+  for negative values `Sizes` = 64 while `InputSizes` = bit length of |v|,
+  which is too short for the two's complement form.
 -/
 import MpcVerif.Proofs.IoArg
 
@@ -31,45 +29,37 @@ open IoArg
 
 /-! ## Textual form and Go-value form put the same bits on the wires -/
 
-/- Full statement (FALSE on the current code, see the witness below):
-   for every integer type `t` and every value `v` of an `int8…uint64` Go kind,
-   `wire (Set v) t.bits = wire (Parse (show v)) t.bits`. -/
-
-/-- Integers: for every width (1..∞, also > 64) and every spelling of `v`
+/-- Integers, full statement: for every width (1..∞, also > 64), every value
+`v` of an `int8…uint64` Go kind (`s`: signed kind) and every spelling of `v`
 (`st.num = v`: decimal, 0x, 0b, 0o, sign), `Parse` and `Set` succeed and put
-the same bits on the `t.bits` wires — provided the value is not a negative
-value of a width above 64. -/
-theorem C13_int_wire_bits_parse_eq_set_partial
+the same bits on the `t.bits` wires. -/
+theorem C13_int_wire_bits_parse_eq_set
     (t : Info) (ht : t.tag = .int ∨ t.tag = .uint) (st : StrFacts) (v : Int) (s : Bool) (w : Nat)
-    (hnum : st.num = some v) (hv : v < (2 ^ 64 : Nat))
-    (hdom : t.bits ≤ 64 ∨ 0 ≤ v) :
+    (hnum : st.num = some v) (hv : v < (2 ^ 64 : Nat)) (hlo : -((2 ^ 63 : Nat) : Int) ≤ v)
+    (hs : v < 0 → s = true) :
     ∃ r, (Arg.mk t []).set [.num s w v] = .ok r ∧ (Arg.mk t []).parse [st] = .ok v ∧
       wire (r : Int) t.bits = wire v t.bits := by
-  refine ⟨writeBits 0 0 64 ((ival v).testBit), ?_, ?_, ?_⟩
+  refine ⟨writeBits 0 0 t.bits (setIntBit (ival v) (s && decide (v < 0))), ?_, ?_, ?_⟩
   · rcases ht with ht | ht <;> simp [Arg.set, Arg.setAt, setLeaf, ht, setInt]
   · rcases ht with ht | ht <;> simp [Arg.parse, parseLeaf, ht, hnum]
   · rw [wire_eq_iff]
     intro j hj
-    rw [ibit_ofNat, testBit_setInt_zero]
-    by_cases h : j < 64
-    · simp [h]
-    · simp only [h, decide_false, Bool.false_and]
-      rcases hdom with hd | hd
-      · omega
-      · exact (ibit_nonneg_lt hd hv (by omega)).symm
+    rw [ibit_ofNat, testBit_writeBits]
+    have : 0 ≤ j ∧ j < 0 + t.bits := by omega
+    simp only [this, and_self, if_true, Nat.sub_zero]
+    exact setIntBit_eq s v hv hlo hs j
 
-example : ∃ (t : Info) (st : StrFacts) (v : Int), (t.tag = .int ∨ t.tag = .uint) ∧ st.num = some v ∧
-    v < (2 ^ 64 : Nat) ∧ (t.bits ≤ 64 ∨ 0 ≤ v) :=
-  ⟨.base .int 8 0, ⟨none, false, false, 2, none, some (-5)⟩, -5, by decide⟩
+example : ∃ (t : Info) (st : StrFacts) (v : Int) (s : Bool), (t.tag = .int ∨ t.tag = .uint) ∧ 64 < t.bits ∧
+    st.num = some v ∧ v < (2 ^ 64 : Nat) ∧ -((2 ^ 63 : Nat) : Int) ≤ v ∧ (v < 0 → s = true) ∧ v < 0 :=
+  ⟨.base .int 65 0, ⟨none, false, false, 2, none, some (-1)⟩, -1, true, by decide⟩
 
-/-- Witness of defect (c): `int65`, value −1 given as `int64(-1)` and as the
-text "-1".  `Set` leaves wire 64 at 0, `Parse` puts 1 there. -/
-theorem C13_int_wire_bits_parse_ne_set_witness :
-    ∃ (t : Info) (st : StrFacts) (v : Int) (r : Nat), t.tag = .int ∧ st.num = some v ∧ v < (2 ^ 64 : Nat) ∧
-      (Arg.mk t []).set [.num true 64 v] = .ok r ∧ (Arg.mk t []).parse [st] = .ok v ∧
-      wire (r : Int) t.bits ≠ wire v t.bits :=
-  ⟨.base .int 65 0, ⟨none, false, false, 2, none, some (-1)⟩, -1, 2 ^ 64 - 1,
-    by decide +kernel⟩
+/-- What was wrong before commit 95af76e, about the OLD `setInt` window: `int65`,
+value −1: the 64-bit window leaves wire 64 at 0 (the text "-1" sets it); and
+for `int8` the window reaches past the argument's 8 wires (wire 8 set). -/
+theorem C13_old_setInt_witness :
+    wire ((setIntOld 0 (-1) 0 : Nat) : Int) 65 ≠ wire (-1) 65 ∧
+    (setIntOld 0 (-1) 0).testBit 8 = true ∧ (setIntOld 0 1 0).testBit 8 = false := by
+  decide +kernel
 
 /- Arrays and slices, textual form.  `N` is the written number, `writtenBits`
 the number of bits Parse takes as written (4 per hex digit after "0x", else
@@ -102,11 +92,11 @@ example : ∃ (st : StrFacts) (N : Nat), st.num = some (N : Int) ∧ (st.hex0x =
     ceilDiv (writtenBits st N) 8 ≤ 4 :=
   ⟨⟨none, false, true, 6, none, some 0xa0a1⟩, 0xa0a1, by decide⟩
 
-/-- `Set` of one leaf argument at offset `o` into a result with no stray bits
-at or above `o+64`: the lower bits are untouched, the argument's wires hold
+/-- `Set` of one leaf argument at offset `o` into a result with no bit set at
+or above `o`: the lower bits are untouched, the argument's wires hold
 `encLeaf` (two's complement little-endian per element, elements in order,
-short `[]byte` values padded with zeros), and the invariant is re-established
-for the next member.  `Fits` excludes exactly the two defect patterns. -/
+short `[]byte` values and `nil` padded with zeros), nothing above the
+argument's own wires is touched. -/
 theorem C13_set_bytes_elements (t : Info) (v : GoVal) (hf : Fits t v) (r o : Nat) (hc : Clean r o) :
     ∃ r', setLeaf t r v o = .ok (r', o + t.bits) ∧
       (∀ j, j < o → r'.testBit j = r.testBit j) ∧
@@ -115,28 +105,28 @@ theorem C13_set_bytes_elements (t : Info) (v : GoVal) (hf : Fits t v) (r o : Nat
   setLeaf_spec t v hf r o hc
 
 example : Fits (.elem .array (4 * 8) 4 (.base .uint 8 0)) (.bytes [0xa0, 0xa1]) ∧ Clean 0 0 :=
-  ⟨Fits.arrayBytes 4 (.base .uint 8 0) [0xa0, 0xa1] (Or.inr rfl) (by decide) (by decide) (Or.inl (by decide)),
+  ⟨Fits.arrayBytes 4 (.base .uint 8 0) [0xa0, 0xa1] (Or.inr rfl) (by decide) (by decide),
    clean_zero 0⟩
 
 /-- Arrays: when the text denotes the same elements as the `[]byte` value
 (`hden`: the `k` written groups are the `k` bytes, zero-extended to the
 element width), `Parse` and `Set` put the same bits on all `count*w` wires;
-short values are padded identically.  Element widths 8..∞. -/
+short and empty values are padded identically.  Element widths 8..∞. -/
 theorem C13_array_wire_bits_parse_eq_set
     (count : Nat) (el : Info) (bs : List Nat) (st : StrFacts) (N : Nat)
     (htag : el.tag = .int ∨ el.tag = .uint) (hw : 8 ≤ el.bits) (hk : bs.length ≤ count)
-    (hne : bs ≠ [] ∨ count = 0) (hb : ∀ b, b ∈ bs → b < 256)
+    (hb : ∀ b, b ∈ bs → b < 256)
     (hnum : st.num = some (N : Int)) (hhex : st.hex0x = true → N < 2 ^ ((st.len - 2) * 4))
     (hcnt : ceilDiv (writtenBits st N) el.bits = bs.length)
     (hden : ∀ e c, (h : e < bs.length) → c < el.bits →
-      N.testBit ((bs.length - e - 1) * el.bits + c) = (decide (c < 8) && bs[e].testBit c)) :
+      N.testBit ((bs.length - e - 1) * el.bits + c) = bs[e].testBit c) :
     ∃ (z r : Nat), (Arg.mk (.elem .array (count * el.bits) count el) []).parse [st] = .ok (z : Int) ∧
       (Arg.mk (.elem .array (count * el.bits) count el) []).set [.bytes bs] = .ok r ∧
       wire (z : Int) (count * el.bits) = wire (r : Int) (count * el.bits) := by
   have hw0 : 0 < el.bits := by omega
   obtain ⟨z, hz, hz1, _, _⟩ := C13_parse_array_elements .array (Or.inl rfl) (count * el.bits) count el st N hnum hw0
     hhex (by simp [hcnt, hk])
-  obtain ⟨r, hr, _, _, hr3⟩ := setLeaf_spec _ _ (Fits.arrayBytes count el bs htag hw hk hne) 0 0 (clean_zero 0)
+  obtain ⟨r, hr, _, _, hr3⟩ := setLeaf_spec _ _ (Fits.arrayBytes count el bs htag hw hk) 0 0 (clean_zero 0)
   refine ⟨z, r, by simpa [Arg.parse] using hz, by simp [Arg.set, Arg.setAt, hr], ?_⟩
   rw [wire_eq_iff]
   intro j hj
@@ -161,11 +151,11 @@ theorem C13_array_wire_bits_parse_eq_set
 example : ∃ (bs : List Nat) (st : StrFacts) (N : Nat), bs ≠ [] ∧ (∀ b, b ∈ bs → b < 256) ∧
     st.num = some (N : Int) ∧ ceilDiv (writtenBits st N) 8 = bs.length ∧
     (∀ e c, (h : e < bs.length) → c < 8 →
-      N.testBit ((bs.length - e - 1) * 8 + c) = (decide (c < 8) && bs[e].testBit c)) :=
+      N.testBit ((bs.length - e - 1) * 8 + c) = bs[e].testBit c) :=
   ⟨[0xa0, 0xa1], ⟨none, false, true, 6, none, some 0xa0a1⟩, 0xa0a1, by decide, by decide, rfl, by decide,
     fun e c h hc => (by decide : ∀ e, (h : e < [0xa0, 0xa1].length) → ∀ c, c < 8 →
       Nat.testBit 0xa0a1 (([0xa0, 0xa1].length - e - 1) * 8 + c) =
-        (decide (c < 8) && ([0xa0, 0xa1] : List Nat)[e].testBit c)) e h c hc⟩
+        ([0xa0, 0xa1] : List Nat)[e].testBit c) e h c hc⟩
 
 /-! ## Members of a compound argument -/
 
@@ -217,43 +207,37 @@ theorem C13_parse_member_independent (t : Info) (pre post : List (Info × StrFac
     have h2 : ¬ j - widthSum (pre.map fun m => (m.1.bits, m.2.2)) < ti.bits := by omega
     simp [h1, h2]
 
-/- Full statement (FALSE on the current code): for every compound of leaves
-   and all in-range Go values, `Set` = concatenation of the members' encodings
-   (hence no member disturbs another). -/
-
-/-- `Set` of a compound argument whose members are leaves with values that
-`Fit`: the `totalBits` wires are the concatenation of the members' encodings
-`encLeaf` at the running offset — in particular member `k`'s wires depend on
-member `k`'s value only.  `Fits` excludes (i) negative values of signed widths
-above 64 and (ii) non-empty arrays given no element. -/
-theorem C13_set_compound_wires_partial (t : Info) (ms : List (Info × GoVal)) (hne : ms ≠ [])
+/-- `Set` of a compound argument whose members are leaves, full statement:
+for all member values that `Fit` (every `int8…uint64` value for integer
+members of any width, bools, `[]byte`/`nil` for arrays and slices) the
+`totalBits` wires are the concatenation of the members' encodings `encLeaf`
+at the running offset — in particular member `k`'s wires depend on member
+`k`'s value only. -/
+theorem C13_set_compound_wires (t : Info) (ms : List (Info × GoVal)) (hne : ms ≠ [])
     (hf : ∀ m, m ∈ ms → Fits m.1 m.2) :
     ∃ r : Nat, (Arg.mk t (ms.map fun m => leaf m.1)).set (ms.map (·.2)) = .ok r ∧
       ∀ j, j < totalBits ms → r.testBit j = encMembers ms j :=
   arg_set_compound t ms hne hf
 
 example : ∃ ms : List (Info × GoVal), ms ≠ [] ∧ ∀ m, m ∈ ms → Fits m.1 m.2 :=
-  ⟨[(.base .int 8 0, .num true 8 (-1)), (.base .bool 1 0, .bool true)], by simp, by
+  ⟨[(.base .int 8 0, .num true 8 (-1)), (.elem .array (4 * 8) 4 (.base .uint 8 0), .nil)], by simp, by
     intro m hm
     simp at hm
     rcases hm with h | h <;> subst h
-    · exact Fits.num .int 8 0 true 8 (-1) (Or.inl rfl) (by decide) (Or.inl (by decide))
-    · exact Fits.bool 0 true⟩
+    · exact Fits.num .int 8 0 true 8 (-1) (Or.inl rfl) (by decide) (by decide) (fun _ => rfl)
+    · exact Fits.arrayNil 4 (.base .uint 8 0) (Or.inr rfl)⟩
 
-/-- Witness of defect (c), second form: struct {int8; [4]byte; uint32}.  The
-array member is given no element (`nil`) in both calls, only the first member
-changes from 1 to −1 — and wire 8 (the array's first wire) changes; the
-textual form "-1","0","7" leaves it 0. -/
-theorem C13_set_member_disturbed_witness :
+/-- The former witness of the spill defect is now an ordinary case: struct
+{int8; [4]byte; uint32} with (−1, nil, 7) and with (1, nil, 7): wire 8 (the
+array's first wire) is 0 in both and `Set` equals `Parse` of "-1","0","7". -/
+theorem C13_set_spill_case_now_correct :
     let arg := Arg.mk (.base .struct 72 0)
       [leaf (.base .int 8 0), leaf (.elem .array 32 4 (.base .uint 8 0)), leaf (.base .uint 32 0)]
-    ∃ r r' z : Nat,
-      arg.set [.num true 8 1, .nil, .num false 32 7] = .ok r ∧
-      arg.set [.num true 8 (-1), .nil, .num false 32 7] = .ok r' ∧
-      arg.parse [⟨none, false, false, 2, none, some (-1)⟩, ⟨some false, false, false, 1, none, some 0⟩,
-        ⟨none, false, false, 1, none, some 7⟩] = .ok (z : Int) ∧
-      r.testBit 8 = false ∧ r'.testBit 8 = true ∧ z.testBit 8 = false :=
-  ⟨0x70000000001, 0x7ffffffffff, 0x700000000ff, by decide +kernel⟩
+    arg.set [.num true 8 1, .nil, .num false 32 7] = .ok 0x70000000001 ∧
+    arg.set [.num true 8 (-1), .nil, .num false 32 7] = .ok 0x700000000ff ∧
+    arg.parse [⟨none, false, false, 2, none, some (-1)⟩, ⟨some false, false, false, 1, none, some 0⟩,
+      ⟨none, false, false, 1, none, some 7⟩] = .ok 0x700000000ff := by
+  decide +kernel
 
 /-! ## Inferred sizes -/
 
@@ -349,7 +333,7 @@ theorem C13_result_inverts_array (tag : Tag) (htag : tag = .array ∨ tag = .sli
           if w ≤ 64 then .u (widthClass w) (lowBits (rsh z (i * w)) w) else .big (lowBits (rsh z (i * w)) w)), z) ∧
     ∀ i b, (lowBits (rsh z (i * w)) w).testBit b = (decide (b < w) && ibit z (i * w + b)) := by
   refine ⟨?_, fun i b => testBit_group z i w b⟩
-  apply result_array tag htag bits count (.base .uint w a) _ (by simp [elemTypeName]) z
+  apply result_array tag htag bits count (.base .uint w a) _ (elemName_explicit _ _ _ (by simp [elemTypeName])) z
   intro i _
   exact ⟨_, result_uint w a _ (lowBits_lt _ _)⟩
 
@@ -376,15 +360,31 @@ theorem C13_old_result_not_pure_witness :
     resultIntOld 5 16 = (.i 8 (-16), -16) ∧ resultIntOld 5 (-16) = (.i 8 (-48), -48) :=
   ⟨by rfl, by rfl, by rfl, by rfl⟩
 
-/-- Defect (d): for every array/slice whose element type is an array, a slice
-or a struct (any sizes, any value, count 0 included) `Result` panics
-(`reflect.SliceOf(reflect.TypeOf(nil))`). -/
-theorem C13_result_nested_array_panics (tag : Tag) (htag : tag = .array ∨ tag = .slice) (bits count : Nat)
-    (el : Info) (hel : el.tag = .array ∨ el.tag = .slice ∨ el.tag = .struct) (z : Int) :
-    result (.elem tag bits count el) z = .error .panic :=
-  nested_panics tag htag bits count el hel z
+/-- Arrays of arrays (commit 74f1961): an array/slice whose elements are
+arrays/slices of unsigned integers decodes to a slice of slices — element
+`(i, k)` is the scalar decoding of wires `i*W + k*w .. +w-1` (`W` the inner
+`Bits`) — and the cell is unchanged; every count (0 included) and width. -/
+theorem C13_result_nested_array_decodes (tag itag : Tag) (htag : tag = .array ∨ tag = .slice)
+    (hitag : itag = .array ∨ itag = .slice) (bits count ibits icount w a : Nat) (z : Int) :
+    result (.elem tag bits count (.elem itag ibits icount (.base .uint w a))) z =
+      .ok (.slice ("[]" ++ (if widthClass w = 0 then "big" else s!"uint{widthClass w}"))
+        ((List.range count).map fun i =>
+          .slice (if widthClass w = 0 then "big" else s!"uint{widthClass w}")
+            ((List.range icount).map fun k =>
+              if w ≤ 64 then .u (widthClass w) (lowBits (rsh ((lowBits (rsh z (i * ibits)) ibits : Nat) : Int) (k * w)) w)
+              else .big (lowBits (rsh ((lowBits (rsh z (i * ibits)) ibits : Nat) : Int) (k * w)) w))), z) := by
+  apply result_array tag htag bits count (.elem itag ibits icount (.base .uint w a)) _ ?_ z
+  · intro i _
+    exact ⟨_, (C13_result_inverts_array itag hitag ibits icount w a _).1⟩
+  · have h0 := (C13_result_inverts_array itag hitag ibits icount w a 0).1
+    have hn : elemTypeName (.elem itag ibits icount (.base .uint w a)) = none := by
+      rcases hitag with h | h <;> simp [elemTypeName, h]
+    rw [elemName_default _ _ _ hn h0]
+    rfl
 
-example : (Info.elem .array 16 2 (.base .uint 8 0)).tag = .array := rfl
+example : result (.elem .array 32 2 (.elem .array 16 2 (.base .uint 8 0))) 0x04030201 =
+    .ok (.slice "[]uint8" [.slice "uint8" [.u 8 1, .u 8 2], .slice "uint8" [.u 8 3, .u 8 4]], 0x04030201) := by
+  rfl
 
 /-- `IO.Split`: part `k` is the `ns[k]` bits of the value starting at the sum
 of the widths before it (two's complement bits for a negative value). -/
@@ -392,10 +392,10 @@ theorem C13_split_spec (ns : List Nat) (z : Int) (k : Nat) (hk : k < ns.length) 
     ((split ns z 0).getD k 0).testBit i = (decide (i < ns[k]) && ibit z ((ns.take k).sum + i)) := by
   simpa using split_spec ns z 0 k hk i
 
-/-- Member independence (Go-value form), for values that `Fit`: replacing the
-value of one member by another fitting value changes no wire outside that
+/-- Member independence (Go-value form), full statement: replacing the value
+of one member by another value of its type changes no wire outside that
 member's own `Type.Bits` wires. -/
-theorem C13_set_member_independent_partial (t : Info) (pre post : List (Info × GoVal))
+theorem C13_set_member_independent (t : Info) (pre post : List (Info × GoVal))
     (ti : Info) (v v' : GoVal)
     (hpre : ∀ m, m ∈ pre → Fits m.1 m.2) (hpost : ∀ m, m ∈ post → Fits m.1 m.2)
     (hv : Fits ti v) (hv' : Fits ti v') :
@@ -427,8 +427,8 @@ theorem C13_set_member_independent_partial (t : Info) (pre post : List (Info × 
     simp [h1, h2]
 
 example : Fits (.base .int 8 0) (.num true 8 (-1)) ∧ Fits (.base .int 8 0) (.num true 8 1) :=
-  ⟨Fits.num .int 8 0 true 8 (-1) (Or.inl rfl) (by decide) (Or.inl (by decide)),
-   Fits.num .int 8 0 true 8 1 (Or.inl rfl) (by decide) (Or.inl (by decide))⟩
+  ⟨Fits.num .int 8 0 true 8 (-1) (Or.inl rfl) (by decide) (by decide) (fun _ => rfl),
+   Fits.num .int 8 0 true 8 1 (Or.inl rfl) (by decide) (by decide) (fun _ => rfl)⟩
 
 /-- Arrays/slices of signed elements: element `i` is the two's complement
 reading (`toSigned`) of wires `i*w .. i*w+w-1`; the cell is unchanged (the
@@ -440,7 +440,7 @@ theorem C13_result_inverts_array_int (tag : Tag) (htag : tag = .array ∨ tag = 
         ((List.range count).map fun i =>
           if w ≤ 64 then .i (widthClass w) (toSigned w (lowBits (rsh z (i * w)) w))
           else .big (toSigned w (lowBits (rsh z (i * w)) w))), z) := by
-  apply result_array tag htag bits count (.base .int w a) _ (by simp [elemTypeName]) z
+  apply result_array tag htag bits count (.base .int w a) _ (elemName_explicit _ _ _ (by simp [elemTypeName])) z
   intro i _
   obtain ⟨h1, h2, h3⟩ := toSigned_range w (lowBits (rsh z (i * w)) w) hw (lowBits_lt _ _)
   have := result_int w a hw (toSigned w (lowBits (rsh z (i * w)) w)) h1 h2
@@ -502,7 +502,7 @@ that member's own wires (`hag`; for integers and bools this is
 `C13_member_agreement_int`/`_bool`, for arrays the content of
 `C13_array_wire_bits_parse_eq_set`), then `Parse` and `Set` put the same bits
 on all wires of the argument. -/
-theorem C13_compound_wire_bits_parse_eq_set_partial (t : Info) (ms : List (Info × StrFacts × Int × GoVal))
+theorem C13_compound_wire_bits_parse_eq_set (t : Info) (ms : List (Info × StrFacts × Int × GoVal))
     (hne : ms ≠ [])
     (hp : ∀ m, m ∈ ms → parseLeaf m.1 m.2.1 = .ok m.2.2.1)
     (hf : ∀ m, m ∈ ms → Fits m.1 m.2.2.2)
@@ -527,7 +527,7 @@ example : ∃ ms : List (Info × StrFacts × Int × GoVal), ms ≠ [] ∧
   ⟨[(.base .int 8 0, ⟨none, false, false, 2, none, some (-1)⟩, -1, .num true 8 (-1))], by simp,
     by simp [parseLeaf],
     by intro m hm; simp at hm; subst hm
-       exact Fits.num .int 8 0 true 8 (-1) (Or.inl rfl) (by decide) (Or.inl (by decide)),
+       exact Fits.num .int 8 0 true 8 (-1) (Or.inl rfl) (by decide) (by decide) (fun _ => rfl),
     by intro m hm; simp at hm; subst hm; intro i _; rfl⟩
 
 /-- member-level agreement for integers: the parsed number and the Go value
